@@ -1,7 +1,7 @@
 (** Codec/GenCheckReuse.v — C18's obligations over the tables go2coq reads off the Go source
     (kept apart from GenCheck.v so that a layout-only change does not re-open C18). *)
 From Coq Require Import NArith List String Bool Lia.
-From P9V Require Import Codec.Layout Codec.Frame Codec.Reuse Codec.ReuseProofs gen.CodecGen.
+From P9V Require Import Codec.Layout Codec.Frame Codec.Reuse Codec.ReuseProofs Codec.Pool Codec.PoolProofs Codec.PoolConc Codec.PoolConcProofs gen.CodecGen.
 Import ListNotations.
 Open Scope N_scope.
 
@@ -34,3 +34,43 @@ Proof. vm_compute. reflexivity. Qed.
 Lemma pool_facts :
   gen_recv_buffer_exact = true /\ gen_rread_data_is_n = true /\ gen_cleanup_zeroes_before_put = true.
 Proof. repeat split; reflexivity. Qed.
+
+(** ---- the pool operations a Tread goes through, as read off tread.handle / send / PayloadCleanup ---- *)
+Definition gen_read_prog : list rop :=
+  match rops_of_names gen_read_ops with Some p => p | None => [] end.
+
+(** obligation: they are Get, ReadAt, send, zeroing, Put — in that order, each once *)
+Lemma read_ops_spec : rops_of_names gen_read_ops = Some spec_ops.
+Proof. reflexivity. Qed.
+
+(** hence, for the program the source has: any number of Treads in flight, every interleaving, every choice
+    of the pool, honest and lazy backends — a reply on the wire is what the backend meant for that request *)
+Theorem read_prog_safe : forall msize calls, (forall i, call_ok msize (calls i)) ->
+  forall sc i r, reply_of msize calls gen_read_prog sc i = Some r -> r = intended (calls i).
+Proof.
+  unfold gen_read_prog. rewrite read_ops_spec. exact pool_conc_safe.
+Qed.
+
+(** ---- recv's appendBuffer as read structurally ---- *)
+Definition slice_of_name (s : string) : option slice :=
+  if String.eqb s "first" then Some SFirst else if String.eqb s "len" then Some SLen
+  else if String.eqb s "cap" then Some SCap else None.
+
+Definition gen_recv_view : option (slice * slice * slice) :=
+  match slice_of_name gen_recv_grow_cmp, slice_of_name gen_recv_decode_slice, slice_of_name gen_recv_read_slice with
+  | Some a, Some b, Some c => Some (a, b, c)
+  | _, _, _ => None
+  end.
+
+(** obligation: growth is decided by the pooled slice's length, decode and ReadFrom both get x[:size] *)
+Lemma recv_slices_spec : gen_recv_view = Some (SLen, SFirst, SFirst).
+Proof. reflexivity. Qed.
+
+(** hence, for the views the source uses: what m.decode sees is independent of everything the pooled buffer
+    held before, within its length and between its length and its capacity *)
+Theorem recv_generated_independent : forall cmp dec rd, gen_recv_view = Some (cmp, dec, rd) ->
+  forall prev hid prev' hid' size stream,
+  recv_buffer_g cmp dec rd prev hid size stream = recv_buffer_g cmp dec rd prev' hid' size stream.
+Proof.
+  intros cmp dec rd H. rewrite recv_slices_spec in H. inversion H; subst. exact PoolProofs.recv_buffer_g_independent.
+Qed.
